@@ -434,6 +434,10 @@ inductive Method
   | toReader (sizes : List Nat)
   | cloneCopy (max : Nat) (m : Method)
   | cloneStream (m : Method)
+  /-- `Buffer.WithTask(task)` with a task that succeeds, then `m` on the decorated buffer.
+  `casBufferWithBackgroundTask` forwards every method to its base and appends the task's (nil)
+  error; its readers forward every `Read`: the consumer observes what it would on the base. -/
+  | withTask (m : Method)
 deriving Repr
 
 /-- `byteSliceChunkReader.Read`. -/
@@ -458,6 +462,7 @@ def runErr (r : Res) : Method → Obs
   | .toReader sizes => obsOf (readSeq (errRead r) sizes () []).2
   | .cloneCopy _ m => runErr r m
   | .cloneStream m => runErr r m
+  | .withTask m => runErr r m
 
 /-- Methods of `validatedByteSliceBuffer`. -/
 def runSlice (data : List Nat) : Method → Obs
@@ -477,6 +482,7 @@ def runSlice (data : List Nat) : Method → Obs
   | .toReader sizes => obsOf (readSeq bufRead sizes data []).2
   | .cloneCopy _ m => runSlice data m
   | .cloneStream m => runSlice data m
+  | .withTask m => runSlice data m
 
 /-- `cloneCopyViaByteSlice`: continue on the buffer made from `ToByteSlice`'s result. -/
 def afterCopy (o : Obs) (m : Method) : Obs :=
@@ -490,6 +496,7 @@ wish and `defaultChunkSizeBytes` of the discarded handles. -/
 def cmaxOf (c : Cfg) : Method → Nat
   | .toChunkReader _ max _ => min max c.defaultChunk
   | .cloneStream m => cmaxOf c m
+  | .withTask m => cmaxOf c m
   | _ => c.defaultChunk
 
 /-- Methods of `casClonedBuffer` with a single reading consumer (the other
@@ -515,6 +522,7 @@ def runCloned {σ : Type} (c : Cfg) (mk : Nat → Step σ) (s : σ) : Method →
     let (s', o) := toByteSliceVia (mk c.defaultChunk) c.fuel s c.size max
     (s', afterCopy o m)
   | .cloneStream m => runCloned c mk s m
+  | .withTask m => runCloned c mk s m
 
 /-- `casReaderBuffer.ToByteSlice`. -/
 def readerToByteSlice (c : Cfg) (v0 : VR) (max : Nat) : VR × Obs :=
@@ -573,6 +581,7 @@ def runReader (c : Cfg) (v0 : VR) : Method → VR × Obs
   | .cloneStream m =>
     let (st, o) := runCloned c (fun cm => rbcStep (VR.read c) c.fuel cm) (v0, none) m
     (st.1, o)
+  | .withTask m => runReader c v0 m
 
 /-- Methods of `casChunkReaderBuffer`. -/
 def runChunk (c : Cfg) (v0 : VC) : Method → VC × Obs
@@ -598,6 +607,7 @@ def runChunk (c : Cfg) (v0 : VC) : Method → VC × Obs
   | .cloneStream m =>
     let (st, o) := runCloned c (fun cm => normStep (VC.read c) cm c.fuel) (v0, []) m
     (st.1, o)
+  | .withTask m => runChunk c v0 m
 
 inductive Ctor
   | slice (data : List Nat)
